@@ -867,6 +867,43 @@ theorem hec_stored_exactly (c : Consts) (t : Members) (q : Bytes × Atom) :
         exact Or.inr (Or.inr (Or.inr (Or.inr (Or.inr (Or.inr (Or.inl ⟨x, hx, rfl⟩))))))
       · rw [hf]; exact joinPath_ne_of_head N.fields tsKey x.1 (by decide) (by decide)
 
+/-! ## numbers and the repaired handlers -/
+
+/-- a number leaf whose token is an integer inside int64 is stored as exactly that integer, through every protocol
+that hands the token to the flattener as it was sent -/
+theorem int64_token_exact (tok jtok : List Char) (i : Int) (h : SigModel.TimeUnit.jpParseInt tok = some i) :
+    storedNum .direct tok jtok = some (.int i) ∧ storedNum .otlp tok jtok = some (.int i) := by
+  simp [storedNum, readTok, h]
+
+/-- Splunk HEC and Loki JSON push AS REPAIRED (UseNumber): the stored number is what ES bulk stores for the same
+token — the float64 re-rendering (`jtok`) plays no part any more.  Together with `hec_stored_exactly` /
+`loki_stores_labels`: the same logical event has the same field VALUES through ES bulk, ES doc, HEC and Loki. -/
+theorem hec_numbers_as_sent (tok jtok : List Char) : storedNum hecNumMode tok jtok = storedNum .direct tok jtok := rfl
+
+/-- FULL STATEMENT for the old decoding: "HEC stores the number ES bulk stores" -/
+def HecNumbersAsSentOld : Prop := ∀ tok jtok : List Char, storedNum hecNumModeOld tok jtok = storedNum .direct tok jtok
+
+/-- before the repair it failed: 9007199254740993 went through float64, came back as the text 9007199254740992
+and was stored as that integer (old known finding content/hec-int-beyond-2^53-altered) -/
+theorem hec_numbers_old_counterexample : ¬ HecNumbersAsSentOld := by
+  intro h
+  have := h ['9','0','0','7','1','9','9','2','5','4','7','4','0','9','9','3'] ['9','0','0','7','1','9','9','2','5','4','7','4','0','9','9','2']
+  revert this
+  decide
+
+/-- the ES single-document handler, before the repair, panicked after ingesting a document whose root `_type` or
+`_index` is not a string (old known finding content/esdoc-panic): the class is not empty … -/
+theorem esdoc_panic_old_witness :
+    esDocPanicsOld (.cons N.u_type (.leaf (.num ['5'] ['5'])) (.cons [109] (.leaf (.str [111])) .nil)) = true := by decide
+
+/-- … and as repaired the handler answers for EVERY document and stores what ES bulk stores, outside the root member
+`_id`: `esdoc_stores` above holds without any guard on `_type` / `_index` (the answer of the specification has no
+panic branch: `answer`). -/
+theorem esdoc_answers_for_every_document (c : Consts) (k : Case) :
+    ∃ es doc hec loki otlp : String, answer c k = s!"es={es} | esdoc={doc} | hec={hec} | loki={loki} | otlp={otlp}"
+      ∧ doc = canonical .direct (flatten tsKey (envEsDoc k.tree)) :=
+  ⟨_, _, _, _, _, rfl, rfl⟩
+
 end Content
 
 end SigModel.Props.C16
